@@ -391,4 +391,301 @@ def sync_py_from_model(py, data, mo):
     pass
 
 
-RUNNERS = {"C06": run_c06, "C10": run_c10}
+
+# ---------------------------------------------------------------------------------------------
+# C15: connection limit
+
+GET_PROBE = req_bytes(("GET", b"probe-key")).hex()
+
+
+def run_c15(rep, tier, seed):
+    rng = random.Random(seed * 1000 + 15)
+    root = os.path.join(WORK, "run-C15")
+    nscen = 4 if tier == "quick" else 30
+    nv = 0
+    for sc in range(nscen):
+        mx = rng.choice([1, 2, 3])
+        nev = rng.randint(8, 14) if tier == "quick" else rng.randint(10, 30)
+        # plan abstract events with a python mirror only to keep the script well-formed; predictions come from the Lean LTS
+        impl = [f"srv.start max={mx} mfs=1000000"]
+        model = [f"cl.init {mx}"]
+        pairs = []          # (impl line index of observation, model line index giving `served`, conn id, kind)
+        alive, nextid = [], 1
+        events = []
+        for _ in range(nev):
+            r = rng.random()
+            if r < 0.45 or not alive:
+                events.append(("connect", nextid))
+                alive.append(nextid)
+                nextid += 1
+            elif r < 0.75:
+                events.append(("probe", rng.choice(alive)))
+            else:
+                c = rng.choice(alive)
+                alive.remove(c)
+                events.append(("end", c, rng.choice(["close", "garbage", "half", "panic"])))
+        # faulty phase: 3*max connections that all end badly, then the capacity test
+        for _ in range(3 * mx):
+            events.append(("connect", nextid))
+            events.append(("end", nextid, rng.choice(["garbage", "half", "panic", "close"])))
+            nextid += 1
+        for c in list(alive):
+            events.append(("end", c, "close"))
+        fresh = list(range(nextid, nextid + mx + 1))
+        for c in fresh:
+            events.append(("connect", c))
+        for c in fresh:
+            events.append(("probe", c))
+        events.append(("end", fresh[0], "close"))
+        events.append(("probe", fresh[-1]))
+        # first pass through the model to know who is served when (needed to choose timeouts and legal panic points)
+        mlines = [f"cl.init {mx}"]
+        for ev in events:
+            if ev[0] == "connect":
+                mlines.append(f"cl.connect {ev[1]}")
+            elif ev[0] == "probe":
+                mlines.append("cl.served")
+            else:
+                mlines.append("cl.served")
+                mlines.append(f"cl.finish {ev[1]}")
+        mans = run_driver(mlines)
+
+        def served_of(line):
+            t = line.split(" ")[1]
+            return set() if t == "-" else set(int(x) for x in t.split(","))
+
+        def free_of(line):
+            m = re.search(r"permits=(\d+) holding=(\w+) pending=(\d+)", line)
+            return int(m.group(1)), m.group(2) == "true", int(m.group(3))
+        mi = 1
+        script = [f"srv.start max={mx} mfs=1000000"]
+        checks = []     # (script line index, expected kind, description)
+        for ev in events:
+            if ev[0] == "connect":
+                script.append(f"c.open {ev[1]}")
+                mi += 1
+            elif ev[0] == "probe":
+                sv = served_of(mans[mi])
+                mi += 1
+                c = ev[1]
+                script.append(f"c.drain {c} 40")
+                script.append(f"c.send {c} {GET_PROBE}")
+                if c in sv:
+                    script.append(f"c.read {c} 1 5000")
+                    checks.append((len(script) - 1, "N", f"connection {c} is being served (per the model) and must get a reply"))
+                else:
+                    script.append(f"c.read {c} 1 250")
+                    checks.append((len(script) - 1, "timeout", f"connection {c} is beyond the limit of {mx} (per the model) and must not be served yet"))
+            else:
+                sv = served_of(mans[mi])
+                permits, holding, pending = free_of(mans[mi])
+                mi += 2
+                c, how = ev[1], ev[2]
+                if how == "panic" and not (c in sv and (pending == 0 or (permits == 0 and not holding))):
+                    how = "garbage"
+                if how == "close":
+                    script.append(f"c.close {c}")
+                elif how == "garbage":
+                    script.append(f"c.send {c} 00ff2a2a0d0a")
+                    if c in sv:
+                        script.append(f"c.readall {c} 5000")
+                        checks.append((len(script) - 1, "closed", f"connection {c} sent garbage and must be closed by the server"))
+                    script.append(f"c.close {c}")
+                elif how == "half":
+                    script.append(f"c.send {c} 2a320d0a24330d0a4745")
+                    script.append(f"c.close {c}")
+                else:
+                    # make sure the handler is up (round trip) before arming the one-shot panic, so that it is the
+                    # handler's own clone() that panics and not the listener's
+                    script.append(f"c.drain {c} 40")
+                    script.append(f"c.send {c} {GET_PROBE}")
+                    script.append(f"c.read {c} 1 5000")
+                    checks.append((len(script) - 1, "N", f"connection {c} is being served (per the model) and must get a reply"))
+                    script.append("ctl.panic on")
+                    script.append(f"c.send {c} {GET_PROBE}")
+                    script.append(f"c.readall {c} 5000")
+                    checks.append((len(script) - 1, "closed", f"the handler of connection {c} panicked; the connection must end"))
+                    script.append("ctl.panic off")
+                    script.append(f"c.close {c}")
+                script.append("sleep 30")
+        script.append("srv.alive")
+        checks.append((len(script) - 1, "alive", "the server keeps running"))
+        script.append("srv.stop")
+        shutil.rmtree(root, ignore_errors=True)
+        died = None
+        try:
+            ans = run_harness(["net", "--root", root], script, timeout=600)
+        except Died as d:
+            ans, died = d.answered, d
+        rep.cov["evaluations"] += len(script)
+        rep.count("scenarios")
+        rep.count("events", len(events))
+        rep.nontrivial(["c15", mx, events])
+        rep.cov["traces_validated_against_impl"] += 1
+        bad = None
+        if died is not None:
+            bad = (len(ans), "harness alive", f"died: {died.why}", "the harness / server process died")
+        for (li, kind, desc) in checks:
+            if bad or li >= len(ans):
+                break
+            a = ans[li]
+            rep.count("obs:" + kind)
+            ok = {"N": a == "N", "timeout": a == "timeout", "closed": a.endswith(" eof") or a.endswith(" reset"), "alive": a == "alive"}[kind]
+            if not ok:
+                bad = (li, kind, a, desc)
+        if bad:
+            nv += 1
+            if nv <= 3:
+                rep.violation("oracle", dict(what=f"max_connections={mx}: {bad[3]}; observed `{bad[2]}`", script=script, answers=ans, failing_line=bad[0],
+                                             expected=str(bad[1]), observed=str(bad[2]), model_script=mlines, model_answers=mans))
+        if sc == 0:
+            rep.sample({"max": mx, "events": [list(e) for e in events][:20], "script": script[:20], "answers": ans[:20]})
+    shutil.rmtree(root, ignore_errors=True)
+    rep.cov["rule"] = ("seeded event scripts at max_connections 1/2/3: connect / probe (GET) / end by clean close, garbage, half-sent frame, or handler panic (a store wrapper whose clone() panics once), "
+                       "then 3*max connections that all end badly, then max+1 fresh connections; the Lean ConnLimit LTS (executed by the driver) predicts after every event which connections are served; "
+                       "a served connection must answer within 5 s, an unserved one must stay silent for 250 ms (a slow machine cannot fabricate a reply); non-trivial = distinct script")
+
+
+# ---------------------------------------------------------------------------------------------
+# C16: graceful shutdown
+
+def run_c16(rep, tier, seed):
+    rng = random.Random(seed * 1000 + 16)
+    root = os.path.join(WORK, "run-C16")
+    nv = 0
+    SET = lambda k, v: req_bytes(("SET", k, v)).hex()
+    GET = lambda k: req_bytes(("GET", k)).hex()
+    big = b"B" * 600000
+    scenarios = []
+    reps = 1 if tier == "quick" else 8
+    for r in range(reps):
+        scenarios += [
+            ("idle connections", ["c.open a", "c.open b", "sleep 50"], ["srv.signal", "srv.wait 10000", "c.readraw a 3000", "c.readraw b 3000"],
+             {1: "returned", 2: "- end", 3: "- end"}, []),
+            ("a connection that has sent part of a frame", ["c.open a", "c.send a 2a330d0a24330d0a534554", "sleep 50"], ["srv.signal", "srv.wait 10000", "c.readraw a 3000"],
+             {1: "returned", 2: "- end"}, []),
+            ("a command executing on a blocking thread", ["c.open a", "ctl.block on", f"c.send a {SET(b'x', b'1')}", "ctl.entered 1 5000"],
+             ["srv.signal", "srv.wait 300", "ctl.block off", "srv.wait 10000", "c.readraw a 3000", "kv.get 78"],
+             {1: "timeout", 3: "returned", 4: "2b4f4b0d0a end", 5: "31"}, []),
+            ("pipelined commands, some still unread when the signal fires", ["c.open a", f"c.send a {SET(b'p1', b'1') + SET(b'p2', b'2') + SET(b'p3', b'3') + GET(b'p1')}"],
+             ["srv.signal", "srv.wait 10000", "c.readraw a 3000", "kv.get 7031", "kv.get 7032", "kv.get 7033"],
+             {1: "returned", 2: "replies-prefix:+OK,+OK,+OK,$1"}, [("acked-sets", 2, [(3, "31"), (4, "32"), (5, "33")])]),
+            ("a large reply being written to a reading client", ["c.open a", f"c.send a {SET(b'big', big)}", "c.read a 1 8000", f"c.send a {GET(b'big')}"],
+             ["srv.signal", "srv.wait 10000", "c.readall a 8000"],
+             {1: "returned", 2: f"whole-or-none:{len(big)}"}, []),
+            ("several connections in different states at once", ["c.open i", "c.open h", "c.send h 2a320d0a2433", "c.open w", "ctl.block on", f"c.send w {SET(b'y', b'2')}", "ctl.entered 1 5000"],
+             ["srv.signal", "sleep 100", "ctl.block off", "srv.wait 10000", "c.readraw i 3000", "c.readraw h 3000", "c.readraw w 3000", "kv.get 79"],
+             {3: "returned", 4: "- end", 5: "- end", 6: "2b4f4b0d0a end", 7: "32"}, []),
+        ]
+    for si, (name, setup, steps, expect, extra) in enumerate(scenarios):
+        script = ["srv.start max=16 mfs=1000000"] + setup + steps + ["srv.stop"]
+        shutil.rmtree(root, ignore_errors=True)
+        died = None
+        try:
+            ans = run_harness(["net", "--root", root], script, timeout=300)
+        except Died as d:
+            ans, died = d.answered, d
+        rep.cov["evaluations"] += len(script)
+        rep.count("scenarios")
+        rep.count("state:" + name.split(" ")[1])
+        rep.nontrivial(["c16", name, si // max(1, len(scenarios) // reps) if reps > 1 else 0])
+        rep.cov["traces_validated_against_impl"] += 1
+        base = 1 + len(setup)
+        bad = None
+        if died is not None:
+            bad = (len(ans), "-", f"harness died: {died.why}")
+        for idx, want in expect.items():
+            li = base + idx
+            if bad or li >= len(ans):
+                break
+            a = ans[li]
+            if want.endswith(" end"):
+                ok = a in (want[:-4] + " eof", want[:-4] + " reset")
+            elif want.startswith("replies-prefix:"):
+                toks = want.split(":", 1)[1].split(",")
+                full = b"".join({"+OK": b"+OK\r\n", "$1": b"$1\r\n1\r\n"}[t] for t in toks)
+                got = a.split(" ")[0]
+                gb = bytes.fromhex(got) if got != "-" else b""
+                # complete replies only, in order, then end of stream
+                cuts = [b"", b"+OK\r\n", b"+OK\r\n+OK\r\n", b"+OK\r\n+OK\r\n+OK\r\n", full]
+                ok = gb in cuts and (a.endswith(" eof") or a.endswith(" reset"))
+                nrep = cuts.index(gb) if gb in cuts else -1
+                for (kind, _, kvs) in extra:
+                    for j, (ki, val) in enumerate(kvs):
+                        if nrep > j and base + ki < len(ans) and ans[base + ki] != val:
+                            ok = False
+                            a = a + f" / but the SET acknowledged by reply {j + 1} is not in the store ({ans[base + ki]})"
+            elif want.startswith("whole-or-none:"):
+                n = int(want.split(":")[1])
+                # the reply to GET big: either not started, or complete ($n CRLF payload CRLF); never torn
+                m = re.match(r"(\S+) (eof|reset)", a)
+                ok = bool(m) and (m.group(1) == "-" or m.group(1).startswith(f"#{n + len(str(n)) + 5}:"))
+            else:
+                ok = a == want
+            if not ok:
+                bad = (li, want, a)
+        if bad:
+            nv += 1
+            if nv <= 3:
+                rep.violation("oracle", dict(what=f"shutdown while {name}: step `{script[bad[0]] if bad[0] < len(script) else '?'}` observed `{bad[2][:200]}`", script=[x[:200] for x in script],
+                                             answers=[x[:200] for x in ans], failing_line=bad[0], expected=bad[1], observed=bad[2][:400]))
+        if si < 3:
+            rep.sample({"state": name, "script": [x[:100] for x in script], "answers": [x[:100] for x in ans]})
+    shutil.rmtree(root, ignore_errors=True)
+    rep.cov["rule"] = ("the shutdown future of the real server is fired at each handler state: idle, after a partial frame, inside a store call held on a gate (run must not return before the "
+                       "command finishes; its reply must arrive complete and its effect be in the store), with pipelined commands buffered, during a 600 KB reply to a reading client, and a mix; "
+                       "checked: run returns within 10 s, each client receives complete replies then end-of-stream (EOF or RST), every SET whose reply arrived is in the store; non-trivial = distinct scenario instance")
+
+
+# ---------------------------------------------------------------------------------------------
+# C11: concurrent clients see one linearizable store
+
+def run_c11(rep, tier, seed):
+    from p_conc import check_history
+    rng = random.Random(seed * 1000 + 11)
+    root = os.path.join(WORK, "run-C11")
+    nruns = 8 if tier == "quick" else 80
+    nv = 0
+    for ri in range(nruns):
+        mfs = rng.choice([0, 60, 300, 9000])
+        clients = rng.choice([2, 3, 4, 8])
+        ops = rng.choice([30, 60]) if tier == "quick" else rng.choice([50, 120])
+        keys = rng.choice([1, 2, 3])
+        preset = rng.choice(["frag=0/1 dead=0 small=1099511627776", "frag=1/4 dead=1099511627776 small=0"])
+        script = [f"srv.start max=32 mfs={mfs} pool={rng.choice([1, 2, 4])} {preset}",
+                  f"netstress clients={clients} ops={ops} keys={keys} seed={rng.randint(1, 10**6)} big={rng.choice([0, 10, 30])}", "srv.alive", "srv.stop"]
+        shutil.rmtree(root, ignore_errors=True)
+        died = None
+        try:
+            ans = run_harness(["net", "--root", root, "--hang-ms", "120000"], script, timeout=600)
+        except Died as d:
+            ans, died = d.answered, d
+        rep.cov["evaluations"] += clients * ops
+        rep.count("runs")
+        if died is not None or len(ans) < 3:
+            nv += 1
+            if nv <= 3:
+                rep.violation("oracle", dict(what=f"server / harness died or hung under concurrent clients ({died.why if died else '?'})", script=script, answers=[a[:300] for a in ans]))
+            continue
+        h = ans[1].split(";")
+        nm = [e for e in h if e.startswith("m merges")]
+        rep.count("merges", int(nm[0].split(" ")[-1]) if nm else 0)
+        rep.count("commands", len(h) - 1)
+        probs = check_history(h)
+        if ans[2] != "alive":
+            probs.append("the server's run loop ended")
+        rep.nontrivial(["c11", script[0], script[1]])
+        rep.cov["traces_validated_against_impl"] += 1
+        if probs:
+            nv += 1
+            if nv <= 3:
+                rep.violation("oracle", dict(what="; ".join(probs[:3]), script=script, history=h[:500]))
+        if ri == 0:
+            rep.sample({"script": script, "history_head": h[:8]})
+    shutil.rmtree(root, ignore_errors=True)
+    rep.cov["rule"] = ("2-8 client connections issue SET (unique values, 8..38 bytes or 9000 bytes) / GET / single-key DEL on 1-3 keys concurrently against the real server (4 worker threads + blocking pool) "
+                       "while a thread forces merges through a direct handle and max_file_size in {0,60,300,9000} forces rollovers; each command's send/receive times and reply form a history that is "
+                       "checked per key for linearizability (exact memoised search; per-connection order is implied by non-overlap); non-trivial = distinct run configuration")
+
+
+RUNNERS = {"C06": run_c06, "C10": run_c10, "C15": run_c15, "C16": run_c16, "C11": run_c11}
